@@ -145,8 +145,10 @@ func RunC11(run *vk.Run) {
 			combo Combo
 			long  bool
 			k     int
-			sov   int  // serial override of the faulty rotation (0 = none): its object name then differs from the retries'
-			kg    bool // the faulty rotation runs with --keep_going
+			sov   int    // serial override of the faulty rotation (0 = none): its object name then differs from the retries'
+			kg    bool   // the faulty rotation runs with --keep_going
+			name  string // persistent fault: every call of this name fails during the faulty rotation (k = 0)
+			retry string // extra flag of the rotations that follow ("" | "--keep_going")
 		}
 		var jobs []job
 		for _, combo := range combos {
@@ -182,15 +184,29 @@ func RunC11(run *vk.Run) {
 						continue // quick: every storage call, a third of the others
 					}
 					if sov == 0 {
-						jobs = append(jobs, job{combo, false, k, 0, false}, job{combo, true, k, 0, false})
+						jobs = append(jobs, job{combo, false, k, 0, false, "", ""}, job{combo, true, k, 0, false, "", ""})
 						if strings.HasPrefix(t.Calls[k-1], "Storage.") {
 							// a storage call refused while the command was told to keep going
-							jobs = append(jobs, job{combo, false, k, 0, true})
+							jobs = append(jobs, job{combo, false, k, 0, true, "", ""})
+							// ... and the rotations after the failed one told to keep going (their default serial
+							// names the object the failed attempt may have left)
+							jobs = append(jobs, job{combo, false, k, 0, false, "", "--keep_going"})
 						}
 					} else {
-						jobs = append(jobs, job{combo, true, k, sov, false})
+						jobs = append(jobs, job{combo, true, k, sov, false, "", ""})
 						if !run.IsQuick() {
-							jobs = append(jobs, job{combo, false, k, sov, false})
+							jobs = append(jobs, job{combo, false, k, sov, false, "", ""})
+						}
+					}
+				}
+				// a fault that persists: every call of one name (one storage operation on one object) fails for
+				// the whole of the faulty rotation, however often the code tries again
+				if sov == 0 {
+					seenName := map[string]bool{}
+					for _, name := range t.Calls {
+						if strings.HasPrefix(name, "Storage.") && !seenName[name] {
+							seenName[name] = true
+							jobs = append(jobs, job{combo, false, 0, 0, false, name, ""}, job{combo, false, 0, 0, true, name, ""})
 						}
 					}
 				}
@@ -218,7 +234,7 @@ func RunC11(run *vk.Run) {
 				run.Infra(err)
 				return
 			}
-			ft := &Tap{FailAt: j.k}
+			ft := &Tap{FailAt: j.k, FailName: j.name}
 			fargs := []string{"rotate", "--timestamp", ts(Tn(1))}
 			if j.sov != 0 {
 				fargs = append(fargs, "--rotated_key_serial_override", fmt.Sprint(j.sov))
@@ -228,11 +244,17 @@ func RunC11(run *vk.Run) {
 			}
 			exec(ft, fargs...)
 			failed := "?"
-			if j.k <= len(ft.Calls) {
+			if j.k >= 1 && j.k <= len(ft.Calls) {
 				failed = ft.Calls[j.k-1]
+			}
+			if j.name != "" {
+				failed = "every " + j.name
 			}
 			for r := 2; r <= 3; r++ {
 				hargs := []string{"rotate", "--timestamp", ts(Tn(r))}
+				if j.retry != "" {
+					hargs = append(hargs, j.retry)
+				}
 				if j.sov != 0 {
 					// explicit serials: the command then does not need the current primary's certificate to
 					// compute the next serial, so the retry goes ahead on a long-lived authority object too
@@ -257,14 +279,14 @@ func RunC11(run *vk.Run) {
 				have[w.Object] = true
 				objs[bucket+"/"+w.Object] = w.Data
 				if err := StoreConsistent(objs, Tn(3)); err != nil {
-					run.Violation("prefix-inconsistent:fault:"+classOf(w.Object), fmt.Sprintf("after the first %d committed object writes (last: %s) of a history whose first rotation had call %d [%s] failing (keep_going %v; long-lived authority object: %v; %v) the store is inconsistent: %v", k+1, w.Object, j.k, failed, j.kg, j.long, j.combo, err),
+					run.Violation("prefix-inconsistent:fault:"+classOf(w.Object), fmt.Sprintf("after the first %d committed object writes (last: %s) of a history whose first rotation had call %d [%s] failing (keep_going %v; later rotations with %q; long-lived authority object: %v; %v) the store is inconsistent: %v", k+1, w.Object, j.k, failed, j.kg, j.retry, j.long, j.combo, err),
 						map[string]any{"combo": j.combo.String(), "fail_at": j.k, "failed_call": failed, "long_lived": j.long, "commands": cmds, "prefix": k + 1})
 				}
 				mu.Lock()
 				faultPrefixes++
 				mu.Unlock()
 			}
-			run.Case(fmt.Sprintf("fault:%v:%v:%d:%d:%v", j.combo, j.long, j.k, j.sov, j.kg), true)
+			run.Case(fmt.Sprintf("fault:%v:%v:%d:%d:%v:%s:%s", j.combo, j.long, j.k, j.sov, j.kg, j.name, j.retry), true)
 		})
 	}
 	// the operator may spell --root_path / --cert_dir in any way the shell accepts ("./certs", "certs//",
@@ -307,6 +329,7 @@ func RunC11(run *vk.Run) {
 		type bjob struct {
 			combo Combo
 			k     int
+			name  string // persistent fault: every call of this name fails (k = 0)
 		}
 		var bjobs []bjob
 		for _, combo := range combos {
@@ -322,7 +345,14 @@ func RunC11(run *vk.Run) {
 			}
 			a.Close()
 			for k := 1; k <= len(t.Calls); k++ {
-				bjobs = append(bjobs, bjob{combo, k})
+				bjobs = append(bjobs, bjob{combo, k, ""})
+			}
+			seenName := map[string]bool{}
+			for _, name := range t.Calls {
+				if strings.HasPrefix(name, "Storage.") && !seenName[name] {
+					seenName[name] = true
+					bjobs = append(bjobs, bjob{combo, 0, name})
+				}
 			}
 		}
 		parallel(len(bjobs), func(i int) {
@@ -333,11 +363,14 @@ func RunC11(run *vk.Run) {
 				return
 			}
 			defer a.Close()
-			ft := &Tap{FailAt: j.k}
+			ft := &Tap{FailAt: j.k, FailName: j.name}
 			ferr := a.Exec(ft, "bootstrap", "--timestamp", ts(T0))
 			failed := "?"
-			if j.k <= len(ft.Calls) {
+			if j.k >= 1 && j.k <= len(ft.Calls) {
 				failed = ft.Calls[j.k-1]
+			}
+			if j.name != "" {
+				failed = "every " + j.name
 			}
 			objs := map[string][]byte{}
 			for k, w := range ft.Writes {
@@ -348,7 +381,7 @@ func RunC11(run *vk.Run) {
 					break
 				}
 			}
-			run.Case(fmt.Sprintf("bootstrap-fault:%v:%d", j.combo, j.k), true)
+			run.Case(fmt.Sprintf("bootstrap-fault:%v:%d:%s", j.combo, j.k, j.name), true)
 		})
 	}
 	// a long history: the manifest grows by one entry per rotation; after every command the live
